@@ -4,6 +4,8 @@ M1  first match wins is wired in: one selector `!has_prev_match & is_match` driv
     updated afterwards, clauses are visited in source order
 M2  sibling constructors split alike: signed scrutinees are split at the arms' boundaries exactly like unsigned ones
 M3  range patterns are lowered with both bound comparisons on every path (inclusive on both ends)
+M4  compound patterns: each field pattern is matched against match_expr[w .. w + size of the field], w advances by that size on
+    every path of the iteration (also when the field has no pattern), and the field verdicts are AND-ed into the result
 """
 from .. import mir
 from ..core import AnchorMissing, Finding, RuleResult
@@ -19,7 +21,9 @@ LEVEL_TEXT = (
     "split_unsigned_range a signed one is split with split_signed_range, and split_signed_range records a split point for every "
     "numeric pattern kind on every path (no sign filter) - without that a signed match covered by several ranges cannot be "
     "recognised as exhaustive (defect found and repaired); (M3) both range-pattern arms pass two comparator calls on every path "
-    "and combine their negations with an AND, so a bound can only be skipped behind an unsigned-only guard.")
+    "and combine their negations with an AND, so a bound can only be skipped behind an unsigned-only guard; (M4) in the three field "
+    "loops of TypedPattern::compile (tuple, struct, enum variant) the sub-pattern gets the slice [w .. w + size_in_bits(field)], w is "
+    "advanced by the same size on every path of an iteration, and the sub-pattern's verdict is AND-ed into the loop-carried verdict.")
 LEVEL_NOTE = "Trusted: rustc MIR; push_comparator_circuit returns (lt, gt) (read); the exclusive-end conversion in the parser is C07-F6."
 EXPLANATION = "Functions analysed: TypedExpr::compile (Match arm), TypedPattern::compile (range arms), check::split_ctor, split_signed_range, split_unsigned_range."
 NOT_DECIDED = "exactness of usefulness / specialize over all arm lists; witnesses of non-exhaustiveness; binding values"
@@ -241,5 +245,87 @@ def rule_m3(ctx):
     return res
 
 
+def rule_m4(ctx):
+    """Compound patterns hand each sub-pattern its own bits and AND the verdicts."""
+    res = RuleResult("M4", "field patterns get the bits at a running offset that advances by each field's size on every path; verdicts are AND-ed")
+    pc = C02.fn_of(ctx, C02.PAT_COMPILE)["id"]
+    body = ctx.body(pc)
+    recs = [(b, t) for b, t in body.calls() if mir.callee(t) == pc]
+    n = 0
+    for rb, rt in recs:
+        loops = [lp for lp in body.loops() if rb in lp["body"]]
+        if not loops:
+            res.bad(Finding("M4", pc, "sub-pattern lowered outside a field loop", "cannot see the running offset of this sub-pattern", rt["sp"]))
+            continue
+        lp = min(loops, key=lambda l: len(l["body"]))
+        n += 1
+        name = "field loop at line %d" % body.term(lp["header"])["sp"][1]
+        # (a) the bits: match_expr[w .. w + size]
+        sl = None
+        for (r, p) in body.trace_operand(rt["args"][1], through={}):
+            if r[0] == "call" and mir.last_seg(r[2] or "") == "index":
+                sl = body.term(r[1])
+        if sl is None or not any(r == ("arg", 2) for (r, p) in body.trace_operand(sl["args"][0])):
+            res.bad(Finding("M4", pc, "%s: sub-pattern does not get a slice of the matched bits" % name, "the bits handed to the sub-pattern are not a slice of this pattern's bits", rt["sp"]))
+            continue
+        rng = None
+        for (r, p) in body.trace_operand(sl["args"][1], through={}):
+            if r[0] == "agg":
+                a = body.blocks[r[1]]["stmts"][r[2]]["rv"]
+                if "Range" in (a.get("adt") or "") and len(a["ops"]) == 2:
+                    rng = a
+        if rng is None:
+            res.bad(Finding("M4", pc, "%s: slice is not a start..end range" % name, "cannot identify the running offset", sl["sp"]))
+            continue
+        w = mir.base_local(body, rng["ops"][0])
+        sizes = {b for b, t in body.calls() if b in lp["body"] and mir.last_seg(mir.callee(t) or "") == "size_in_bits_for_defs"}
+
+        def is_size(op):
+            return any(r[0] == "call" and r[1] in sizes for (r, p) in body.trace_operand(op))
+        # end = w + size
+        end_ok = False
+        for (r, p) in body.trace_operand(rng["ops"][1], through={}):
+            if r[0] == "rv" and r[1] == "binop":
+                rv = body.blocks[r[2]]["stmts"][r[3]]["rv"]
+                if rv["op"].startswith("Add"):
+                    for me, other in ((rv["l"], rv["r"]), (rv["r"], rv["l"])):
+                        if mir.base_local(body, me) == w and is_size(other):
+                            end_ok = True
+        if w is None or not end_ok:
+            res.bad(Finding("M4", pc, "%s: slice is not offset .. offset + size of the field" % name,
+                            "the sub-pattern must be given exactly the bits of its field: [w .. w + size_in_bits(field type)] with w the running offset", sl["sp"]))
+            continue
+        # (b) w advances by the field size on every path of an iteration
+        bumps = {b for (b, other) in mir.add_defs(body, w) if b in lp["body"] and is_size(other)}
+        other_writes = [b for (b, other) in mir.add_defs(body, w) if b in lp["body"] and not is_size(other)]
+
+        def inloop(b, lp=lp):
+            return [x for x in body.succs(b) if x in lp["body"] and not body.blocks[x]["cleanup"]]
+        latches = [b for b in lp["body"] if lp["header"] in body.succs(b)]
+        skip = body.path(lp["header"], latches, blocked=bumps, succ=inloop) if bumps else [lp["header"]]
+        if skip or other_writes:
+            res.bad(Finding("M4", pc, "%s: offset does not advance by the field size on every path" % name,
+                            "an iteration can end without `w += size of this field` (blocks %s): the following fields are matched against the wrong bits" % (skip or other_writes), rt["sp"]))
+        else:
+            res.ok({"loop": name, "clause": "offset", "verdict": "slice = [w .. w + size]; w += size on every path of the iteration"})
+        # (c) verdicts are AND-ed into a loop-carried accumulator that is the result
+        acc_ok = False
+        for b, t in body.calls():
+            if b in lp["body"] and mir.last_seg(mir.callee(t) or "") == "push_and":
+                srcs = [body.trace_operand(a) for a in t["args"][1:3]]
+                has_rec = [any(r[0] == "call" and r[1] == rb for (r, p) in sset) for sset in srcs]
+                has_self = [any(r[0] == "call" and r[1] == b for (r, p) in sset) for sset in srcs]
+                if (has_rec[0] and has_self[1]) or (has_rec[1] and has_self[0]):
+                    acc_ok = True
+        if acc_ok:
+            res.ok({"loop": name, "clause": "verdict", "verdict": "is_match = and(is_match, sub-pattern verdict)"})
+        else:
+            res.bad(Finding("M4", pc, "%s: sub-pattern verdict is not AND-ed into the running verdict" % name,
+                            "the verdict of a field pattern must be combined with AND with the verdicts so far (a mismatch in any field is a mismatch)", rt["sp"]))
+    if n < 3 and not res.findings:
+        raise AnchorMissing("M4: expected the three field loops of TypedPattern::compile (tuple, struct, enum variant), found %d" % n)
+    return res
+
+
 def run(ctx):
-    return ctx.run_rules([rule_m1, rule_m2, rule_m3])
+    return ctx.run_rules([rule_m1, rule_m2, rule_m3, rule_m4])
